@@ -2,7 +2,7 @@
    L = Lib/PopenSM.v (machine of poll / wait / wait_timeout / ...), K = the process model in the same file.
    Only statements here; proofs live in Proofs/PopenProofs.v and Proofs/StatusProofs.v. *)
 From Coq Require Import List NArith Bool.
-Require Import SP.Params SP.Lib.Status SP.Lib.PopenSM SP.Proofs.StatusProofs SP.Proofs.PopenProofs.
+Require Import SP.Params SP.Lib.Status SP.Lib.PopenSM SP.Proofs.StatusProofs SP.Proofs.PopenProofs SP.Kernel.JobCtl SP.Proofs.JobCtlProofs.
 Import ListNotations.
 Open Scope N_scope.
 
@@ -77,6 +77,27 @@ Print Assumptions C09_reaped_elsewhere_returns.
 
 (* Non-vacuity: a concrete run -- the child exits with code 3 at t = 5 ms; wait_timeout(1 s) started at 0
    reports Exited 3 -- exists in the model. *)
+(* job control (Kernel/JobCtl.v): "never report a status while the child is still running" also for a child that is
+   merely stopped.  L's calls are served by the job-control kernel exactly as by the plain one (so the theorems above
+   carry over), a status handed to one of L's calls is that of a terminated child which that call reaps, and a status
+   for a child that is alive afterwards goes only to a waitpid that passed WUNTRACED -- a call L cannot make *)
+Theorem C09_base_calls_simulate : forall w c dur over w' r,
+  xserve w (XBase c) dur over = XRes w' r -> pserve (xbase w) c dur over = PRes (xbase w') r.
+Proof. exact base_calls_simulate. Qed.
+Print Assumptions C09_base_calls_simulate.
+
+Theorem C09_status_means_reaped : forall w c dur over w' same raw,
+  xserve w (XBase c) dur over = XRes w' (RWaitPid same raw) ->
+  same = true /\ pr (xbase w') = PReaped /\ exists nh, c = PWaitpid nh.
+Proof. exact base_status_means_reaped. Qed.
+Print Assumptions C09_status_means_reaped.
+
+Theorem C09_alive_status_needs_untraced : forall w c dur over w' same raw,
+  xserve w c dur over = XRes w' (RWaitPid same raw) -> pr (xbase w') = PAlive ->
+  exists nh opts sig, c = XWaitOpts nh opts /\ N.land opts WUNTRACED <> 0%N /\ xstopped w = Some sig /\ raw = stop_status sig.
+Proof. exact alive_status_needs_untraced. Qed.
+Print Assumptions C09_alive_status_needs_untraced.
+
 Example C09_nonvacuous :
   let w0 := {| pr := PAlive; exit_at := Some (5000000, 768); reap_at := None; dies_on_signal := false; pnow := 0; kills := [] |} in
   let p0 := {| cstate := Running; detached := false |} in
